@@ -136,6 +136,9 @@ func checkC14(p *Prog, r *Report) {
 		}
 	}
 
+	// a pooled output buffer that is not emptied before use prepends an earlier rendering's leftovers
+	rulePoolDiscipline(p, a, r, "R-C14-POOL")
+
 	// ---- R-C14-ERR
 	r.Begin("R-C14-ERR", "ExecuteWriter hands the caller's writer's error back", 1)
 	if writeTo != nil {
